@@ -4,3 +4,4 @@ pub mod c07;
 pub mod c11;
 pub mod c13;
 pub mod c19;
+pub mod c08;
